@@ -61,9 +61,23 @@ fn gen(r: &mut Rng, _cfg: &RunCfg) -> Case {
         o2.si = twin(r, &o.si);
         Case::new("pair").text(text).opt(o).opt(o2)
     } else {
-        let sub = if r.chance(1, 4) { "prefix_fill" } else { "prefix" };
+        let sub = match r.below(8) {
+            0..=1 => "prefix_fill",
+            2 => "prefix_custom_algorithm",
+            _ => "prefix",
+        };
         Case::new(sub).text(text).opt(o)
     }
+}
+
+/// A user-supplied wrap algorithm that emits an empty first line ("top
+/// margin") followed by the first-fit lines: every line, also the one built
+/// from an empty slice, must carry its indent.
+fn top_margin<'a, 'b>(words: &'b [textwrap::core::Word<'a>], line_widths: &'b [usize]) -> Vec<&'b [textwrap::core::Word<'a>]> {
+    let f: Vec<f64> = line_widths.iter().map(|w| *w as f64).collect();
+    let mut v = vec![&words[0..0]];
+    v.extend(textwrap::wrap_algorithms::wrap_first_fit(words, &f));
+    v
 }
 
 fn check_prefix<S: AsRef<str>>(lines: &[S], ii: &str, si: &str) -> Result<(), String> {
@@ -85,9 +99,13 @@ pub fn check(case: &Case, obs: &mut Obs) -> Verdict {
     let paras = text.split(o.le()).count();
     let empty_paras = text.split(o.le()).filter(|p| p.trim_matches(' ').is_empty()).count();
     match case.sub.as_str() {
-        "prefix" | "prefix_fill" => {
+        "prefix" | "prefix_fill" | "prefix_custom_algorithm" => {
             let lines: Vec<String> = if case.sub == "prefix" {
                 textwrap::wrap(text, o.build()).into_iter().map(|c| c.into_owned()).collect()
+            } else if case.sub == "prefix_custom_algorithm" {
+                obs.bump("custom_algorithm_with_empty_slice");
+                let opts = o.build().wrap_algorithm(textwrap::WrapAlgorithm::Custom(top_margin));
+                textwrap::wrap(text, opts).into_iter().map(|c| c.into_owned()).collect()
             } else {
                 textwrap::fill(text, o.build()).split(o.le()).map(|s| s.to_string()).collect()
             };
@@ -195,13 +213,13 @@ fn extra(cfg: &RunCfg, w: &mut Worker) {
 pub fn prop() -> Prop {
     Prop {
         id: "C08",
-        rule: "cases = (text rich in empty / whitespace-only paragraphs, options with indents) for wrap and fill (prefix test) and pairs of option sets differing only in the characters of same-width indents (metamorphic); non-trivial = >= 2 output lines with a non-empty indent (prefix) or differing indent strings with >= 2 lines (pair); distinct = (option shape, line-count bucket, paragraph bucket, empty paragraph present | indent widths)",
+        rule: "cases = (text rich in empty / whitespace-only paragraphs, options with indents) for wrap and fill (prefix test; 1/8 of the prefix cases use a custom wrap algorithm that emits an empty slice before the first-fit lines) and pairs of option sets differing only in the characters of same-width indents (metamorphic); non-trivial = >= 2 output lines with a non-empty indent (prefix) or differing indent strings with >= 2 lines (pair); distinct = (option shape, line-count bucket, paragraph bucket, empty paragraph present | indent widths)",
         gen,
         check,
         panic_is_violation: false,
         budget: (1200000, 30000000),
         extra: Some(extra),
-        required: &["indented_multi_line", "empty_paragraph_with_indent", "pair_multi_line"],
+        required: &["custom_algorithm_with_empty_slice", "indented_multi_line", "empty_paragraph_with_indent", "pair_multi_line"],
         known: None,
     }
 }
